@@ -473,6 +473,11 @@ class P:
                     guard = self.expr()
                 self.expect("=>")
                 body = self.expr(stmt=True)
+                for op in ("=", "+=", "-=", "*="):      # an assignment as the arm's body
+                    if self.at(op):
+                        self.i += 1
+                        body = ("block", [("assign", op, body, self.expr())], None)
+                        break
                 self.eat(",")
                 for p in pats:
                     arms.append((p, guard, body))
